@@ -114,11 +114,12 @@ theorem C03_value_exact (c : Crypto) (rel : Relayer.State) (s : State) (headers 
 /-- **Coinbase maturity cannot be bypassed**: by position binding (C04) a proof accepted for the
     block's tree under a position of the tree's depth presents the leaf that really is at that
     position — so the first transaction can only be presented at position 0, where the maturity
-    rule applies. -/
-theorem C03_coinbase_only_at_zero {H} (hH : C04.IdealHash H) (t : C04.Tree) (hp : t.Perfect)
+    rule applies.  Stated without any unsatisfiable idealisation: presenting another transaction at a
+    position *exhibits a collision* of the hash on two 64-byte inputs. -/
+theorem C03_coinbase_only_at_zero {H} (hH : C04.Out32 H) (t : C04.Tree) (hp : t.Perfect)
     (txid proof : Bytes) (i : Nat) (hdepth : proof.length / 32 = t.depth)
-    (hacc : Merkle.verify H txid (t.root H) proof i = true) (hne : txid ≠ t.leafAt i) : False :=
-  hne (C04.C04_accepted_is_leaf hH t hp txid proof i hdepth hacc)
+    (hacc : Merkle.verify H txid (t.root H) proof i = true) (hne : txid ≠ t.leafAt i) : C04.Collision64 H :=
+  (C04.C04_accepted_is_leaf hH t hp txid proof i hdepth hacc).resolve_left hne
 
 /-! ### at most once -/
 
